@@ -767,6 +767,197 @@ def corr_from_angle(ctx, drv):
             ctx.disagree({'from_angle': ang}, got, [float(x) for x in want], 'Matrix.from_angle vs fromTrig')
 
 
+# --- instance inputs / outputs through func_instance_io_proxy
+
+def _orec(o):
+    return (o.output, o.target, o.input, o.params, o.delay, o.times, o.inst_out, o.inst_in, o.comma_sep)
+
+
+def _owire(r):
+    return [codes(r[0]), codes(r[1]), codes(r[2]), codes(r[3]), G.rat(r[4]), r[5],
+            None if r[6] is None else codes(r[6]), None if r[7] is None else codes(r[7]), bool(r[8])]
+
+
+def _ounwire(w):
+    return (uncodes(w[0]), uncodes(w[1]), uncodes(w[2]), uncodes(w[3]), float(G.unrat(w[4])), w[5],
+            None if w[6] is None else uncodes(w[6]), None if w[7] is None else uncodes(w[7]), w[8])
+
+
+def _combine_times(a, b):
+    return a if b < 0 else b if a < 0 else min(a, b)
+
+
+def run_io(seed):
+    """One instance file with an I/O proxy collapsed into a map whose entities talk to the instance. Everything is
+    recorded on the output-record level, before and after."""
+    im = impl()
+    I, VMF, Output, Vec, Matrix, FixupValue = im['I'], im['VMF'], im['Output'], im['Vec'], im['Matrix'], im['FixupValue']
+    rng = random.Random(seed)
+    cv = lambda x, p=0.3: G.case_variant(rng, x, p)
+    names = rng.sample(['relay', 'Relay2', 'door$nm', '@glob', 'btn', 'counter', 'x y'], rng.choice([1, 2, 3]))
+    proxy_name = rng.choice(['proxy', 'proxy', 'Proxy', 'PROXY_1'])
+    t = VMF()
+    mk = lambda out, targ, inp: Output(out, targ, inp, rng.choice(['', '', 'par', '$nm']), rng.choice([0.0, 0.5, 0.25, 2.0]),
+                                       times=rng.choice([-1, -1, 1, 3]), comma_sep=rng.random() < 0.3)
+    for n in names:
+        e = t.create_ent(rng.choice(['logic_relay', 'func_button', 'math_counter']), targetname=n, origin='0 0 0')
+        for _ in range(rng.randrange(0, 4)):
+            if rng.random() < 0.5:
+                e.add_out(mk(rng.choice(['OnTrigger', 'OnOpen', 'ontrigger']), cv(proxy_name, 0.25), rng.choice(['ProxyRelay', 'ProxyRelay', 'proxyrelay'])))
+            else:
+                e.add_out(mk(rng.choice(['OnTrigger', 'OnOpen']), rng.choice(names + ['!self', 'outsider', '$nm']), rng.choice(['Trigger', 'Kill', 'ProxyRelay'])))
+    if rng.random() < 0.9:
+        p = t.create_ent(cv('func_instance_io_proxy'), targetname=proxy_name, origin='8 8 8')
+        for _ in range(rng.randrange(0, 4)):
+            p.add_out(mk(rng.choice(['OnProxyRelay', 'OnProxyRelay', 'onproxyrelay', 'OnProxyRelay1', 'OnUser1']),
+                         cv(rng.choice(names), 0.25), rng.choice(['Trigger', 'Open', 'trigger'])))
+    ents_model = [{'proxy': e['classname'].casefold() == 'func_instance_io_proxy', 'name': codes(e['targetname']),
+                   'outs': [_owire(_orec(o)) for o in e.outputs]} for e in t.entities]
+    tmpl = [(e['classname'].casefold() == 'func_instance_io_proxy', e['targetname'], [_orec(o) for o in e.outputs]) for e in t.entities]
+    params = G.gen_inst_params(rng)
+    params['name'] = rng.choice(['inst', 'Inst A', 'I1', '@i'])
+    inst_outs = []
+    for _ in range(rng.randrange(0, 4)):
+        inst_outs.append(Output(rng.choice(['OnTrigger', 'ontrigger', 'OnOpen']), rng.choice(['outer_thing', 'relay', '@glob']), 'FireUser1',
+                                rng.choice(['', 'p2']), rng.choice([0.0, 1.0]), times=rng.choice([-1, 1, 2]),
+                                inst_out=rng.choice([None] + [cv(n, 0.3) for n in names] + ['nosuch']), comma_sep=rng.random() < 0.3))
+    target = VMF()
+    for _ in range(rng.choice([1, 2])):
+        a = target.create_ent('logic_auto', origin='0 0 0', targetname=rng.choice(['auto', 'relay']))
+        for _ in range(rng.randrange(1, 4)):
+            a.add_out(Output('OnMapSpawn', rng.choice([params['name'], cv(params['name'], 0.5), 'other', 'relay']),
+                             rng.choice(['Trigger', 'trigger', 'Open', 'Kill']), rng.choice(['', 'q']), rng.choice([0.0, 2.0]),
+                             times=rng.choice([-1, 1, 5]), inst_in=rng.choice([None] + [cv(n, 0.3) for n in names] + ['nosuch']),
+                             comma_sep=rng.random() < 0.3))
+    outer_before = [[_orec(o) for o in e.outputs] for e in target.entities]
+    f = I.InstanceFile(t)
+    before = t.export(inc_version=False)
+    inst = I.Instance(params['name'], 'io.vmf', Vec(64, 0, 0), Matrix(), I.FixupStyle(params['style']), outputs=inst_outs,
+                      fixup=[FixupValue(k, v, i + 1) for i, (k, v) in enumerate(params['fixup'])])
+    inst_recs = [_orec(o) for o in inst_outs]
+    n0 = len(target.entities)
+    r = {'seed': seed, 'params': params, 'tmpl': tmpl, 'outer_before': outer_before, 'inst_outs': inst_recs, 'error': None}
+    try:
+        I.collapse_one(target, inst, f)
+    except Exception as e:
+        r['error'] = f'{type(e).__name__}: {e}'
+    r['template_same'] = before == t.export(inc_version=False)
+    r['outer_after'] = [[_orec(o) for o in e.outputs] for e in target.entities[:n0]]
+    r['new'] = [(e['targetname'], [_orec(o) for o in e.outputs]) for e in target.entities[n0:]]
+    r['req'] = {'op': 'io', 'ents': ents_model, 'outer': [_owire(o) for outs in outer_before for o in outs],
+                'inst': {'name': codes(params['name']), 'style': params['style'],
+                         'fixup': [[codes(k), codes(fv.value)] for k, fv in inst.fixup._fixup.items()],
+                         'outs': [_owire(o) for o in inst_recs]}}
+    return r
+
+
+def check_io(r):
+    """Statement: connections inside the instance follow the renamed entities; connections into the instance
+    (instance:name;Input) are re-routed to the renamed real target; connections out of it (instance:name;Output) are
+    added to the copy of the entity; nothing else in the map is touched; the template is intact."""
+    bad = []
+    if not r['template_same']:
+        bad.append(('template-modified', 'collapse with I/O proxies modified the template'))
+    if r['error'] is not None:
+        bad.append(('io-proxy', f'collapse_one raised {r["error"]}'))
+        return bad
+    P = r['params']
+    style, iname, table = P['style'], P['name'], P['fixup']
+    proxies = [t for t in r['tmpl'] if t[0]]
+    others = [t for t in r['tmpl'] if not t[0]]
+    pnames = {t[1].casefold() for t in proxies}
+    pin = {}
+    for _, _, outs in proxies:
+        for o in outs:
+            if o[0].casefold() == 'onproxyrelay':
+                pin[o[1].casefold(), o[2].casefold()] = o
+
+    def renamed(s):
+        sub = G.spec_substitute(table, s)
+        return None if sub is None else G.spec_fixup_name(style, iname, sub)
+
+    # into the instance / untouched
+    flat_b = [o for outs in r['outer_before'] for o in outs]
+    flat_a = [o for outs in r['outer_after'] for o in outs]
+    if len(flat_a) != len(flat_b):
+        bad.append(('io-proxy', f'outputs of the map\'s own entities: {len(flat_b)} before, {len(flat_a)} after'))
+        return bad
+    for b, a in zip(flat_b, flat_a):
+        p = pin.get((b[7].casefold(), b[2].casefold())) if (b[7] is not None and b[1].casefold() == iname.casefold()) else None
+        if p is None:
+            if a != b:
+                bad.append(('io-proxy', f'an output that is not a connection into this instance was changed: {b} -> {a}'))
+            continue
+        want_t = renamed(p[1])
+        want = (b[0], want_t if want_t is not None else a[1], p[2], p[3] or b[3], b[4] + p[4], _combine_times(b[5], p[5]), b[6], None, b[8] and p[8])
+        if a != want:
+            bad.append(('io-proxy', f'connection into the instance {b} (proxy relays ({p[1]!r}, {p[2]!r}); instance {iname!r}, style '
+                                    f'{G.STYLE_NAMES[style]}, {table}) became {a}, expected {want}: it must reach the renamed entity'))
+    # inside / out of the instance
+    if len(r['new']) != len(others):
+        bad.append(('io-proxy', f'{len(others)} non-proxy entities in the instance, {len(r["new"])} added'))
+        return bad
+    pout = {}
+    for i, (_, name, outs) in enumerate(others):
+        for o in outs:
+            if o[2].casefold() == 'proxyrelay' and o[1].casefold() in pnames:
+                pout[name.casefold(), o[0].casefold()] = (i, o)
+    extra = {i: [] for i in range(len(others))}
+    for o in r['inst_outs']:
+        if o[6] is None:
+            continue
+        hit = pout.get((o[6].casefold(), o[0].casefold()))
+        if hit is not None:
+            i, q = hit
+            extra[i].append((q[0], o[1], o[2], o[3] or q[3], q[4] + o[4], _combine_times(q[5], o[5]), None, o[7], q[8] and o[8]))
+    for i, ((_, name, outs), (new_name, new_outs)) in enumerate(zip(others, r['new'])):
+        wn = renamed(name)
+        if wn is not None and new_name != wn:
+            bad.append(('name', f'I/O entity {name!r} renamed {new_name!r}, expected {wn!r}'))
+        kept = [o for o in outs if not (o[2].casefold() == 'proxyrelay' and o[1].casefold() in pnames)]
+        want = []
+        for o in kept:
+            wt = renamed(o[1])
+            want.append(o if wt is None else (o[0], wt) + o[2:])
+        got = list(new_outs)
+        for k, o in enumerate(kept):
+            if renamed(o[1]) is None and k < len(got):
+                got[k] = (got[k][0], o[1]) + got[k][2:]      # undefined variable in the target: not specified
+        if got != want + extra[i]:
+            bad.append(('io-proxy', f'entity {name!r} of the instance (proxies {sorted(pnames)}): outputs {outs} became {new_outs}; expected the '
+                                    f'connections to the proxy removed, the others kept with renamed targets {want} and the connections '
+                                    f'leaving the instance added {extra[i]}'))
+    return bad
+
+
+def corr_io(ctx, drv):
+    reqs, meta = [], []
+    for _ in range(ctx.budget(400, 4000)):
+        seed = ctx.rng.getrandbits(40)
+        r = run_io(seed)
+        for key, what in check_io(r):
+            _wit(ctx, key, f'[io case {seed}] {what}', {'kind': 'io', 'seed': seed})
+        nt = any(t[0] for t in r['tmpl']) and any(o[7] is not None or o[6] is not None for outs in r['outer_before'] for o in outs + r['inst_outs'])
+        ctx.case({'io': seed}, nontrivial=nt, sample_every=211)
+        ctx.count('io-proxy cases')
+        if r['error'] is None:
+            reqs.append(r['req']); meta.append(r)
+    for r, m in zip(meta, drv.batch(reqs)):
+        ctx.traces_vs_impl += 1
+        if 'outer' not in m:
+            ctx.disagree({'io': r['seed']}, 'result', m, 'model error')
+            continue
+        got_outer = [o for outs in r['outer_after'] for o in outs]
+        mod_outer = [_ounwire(w) for w in m['outer']]
+        mod_ents = [(uncodes(e['name']), [_ounwire(w) for w in e['outs']]) for e in m['ents']]
+        if got_outer != mod_outer:
+            d = next(((a, b) for a, b in zip(got_outer, mod_outer) if a != b), (len(got_outer), len(mod_outer)))
+            ctx.disagree({'io': r['seed']}, d[0], d[1], 'connections into the instance (reroute)')
+        elif r['new'] != mod_ents:
+            d = next(((a, b) for a, b in zip(r['new'], mod_ents) if a != b), (len(r['new']), len(mod_ents)))
+            ctx.disagree({'io': r['seed']}, d[0], d[1], 'entities of the instance: names / outputs')
+
+
 # --- collapse_all
 
 class _TooMany(Exception):
@@ -998,6 +1189,7 @@ def correspond(ctx, drivers):
     corr_collapse_all(ctx, drv)
     corr_nested(ctx, drv)
     corr_from_angle(ctx, drv)
+    corr_io(ctx, drv)
     # histories
     n_hist = ctx.budget(400, 4000)
     reqs, meta = [], []
@@ -1050,6 +1242,10 @@ def search(ctx):
             seed = ctx.rng.getrandbits(40)
             for key, what in check_nested(run_nested(seed)):
                 _wit(ctx, key, what, {'kind': 'nested', 'seed': seed})
+        for _ in range(ctx.budget(400, 4000)):
+            seed = ctx.rng.getrandbits(40)
+            for key, what in check_io(run_io(seed)):
+                _wit(ctx, key, f'[io case {seed}] {what}', {'kind': 'io', 'seed': seed})
     for k in range(n):
         seed = ctx.rng.getrandbits(40)
         nv = k % 2 == 0
@@ -1124,6 +1320,28 @@ def _fixed_vis_witness():
     return got == set(), got
 
 
+def _fixed_io_witness():
+    """Relay + proxy named with capitals; the map fires instance:relay;trigger at the instance once-unlimited."""
+    im = impl()
+    I, VMF, Output, Vec, Matrix = im['I'], im['VMF'], im['Output'], im['Vec'], im['Matrix']
+    t = VMF()
+    r = t.create_ent('logic_relay', targetname='Relay', origin='0 0 0')
+    r.add_out(Output('OnTrigger', 'proxy', 'ProxyRelay'))
+    p = t.create_ent('func_instance_io_proxy', targetname='Proxy', origin='0 0 0')
+    p.add_out(Output('OnProxyRelay', 'Relay', 'Trigger', times=1))
+    f = I.InstanceFile(t)
+    target = VMF()
+    a = target.create_ent('logic_auto', origin='0 0 0')
+    a.add_out(Output('OnMapSpawn', 'inst', 'trigger', inst_in='RELAY'))
+    inst = I.Instance('inst', 'io.vmf', Vec(), Matrix(), I.FixupStyle.PREFIX,
+                      outputs=[Output('OnTrigger', 'outer', 'FireUser1', inst_out='relay')])
+    I.collapse_one(target, inst, f)
+    o = a.outputs[0]
+    new = target.entities[1]
+    return {'lookup': o.inst_in is None, 'renamed': o.target == 'inst-Relay', 'times': o.times == 1,
+            'proxyname': [(x.output, x.target, x.input) for x in new.outputs] == [('OnTrigger', 'outer', 'FireUser1')]}
+
+
 def _fixed_missing_witness():
     g = {'files': [{'kids': [], 'hidden': 0}], 'init': [0, 0, 1], 'limit': 5}
     bad = retry_experiment(impl(), g, {'outcome': 'missing'})
@@ -1131,6 +1349,8 @@ def _fixed_missing_witness():
 
 
 def replay_known(ctx, finding):
+    if str(finding.get('key', '')).startswith('io-proxy-'):
+        return not _fixed_io_witness()[finding['witness']['part']]
     if finding.get('key') == 'error-path':
         return not _fixed_missing_witness()[0]
     if finding.get('key') == 'visgroups':
@@ -1157,6 +1377,11 @@ def replay(ctx, payload):
         bad = check_collapse_all(inp['graph'], r)
         print(r, bad)
         return not bad
+    if kind == 'io':
+        bad = check_io(run_io(inp['seed']))
+        for k, w in bad[:10]:
+            print(k, ':', w)
+        return not bad
     if kind == 'nested':
         bad = check_nested(run_nested(inp['seed']))
         print(bad)
@@ -1172,6 +1397,10 @@ def replay(ctx, payload):
         r = inst.fixup_name(inp['name'])
         print('fixup_name', inp, '->', repr(r))
         return r == G.spec_fixup_name(inp['style'], inp['inst'], inp['name'])
+    if kind == 'fixed-io':
+        res = _fixed_io_witness()
+        print(res)
+        return res[inp['part']] if 'part' in inp else all(res.values())
     if kind == 'fixed-missing-file':
         ok, bad = _fixed_missing_witness()
         print(bad)
